@@ -157,7 +157,7 @@ func (b *Buffer) writeBitsLSB(bits uint8, n int) {
 		return
 	}
 	b.buf[len(b.buf)-1] |= bits << (8 - (b.wrote + n))
-	b.wrote += n
+	b.wrote = (b.wrote + n) % 8
 }
 
 func (b *Buffer) writeByte(bits uint8) {
